@@ -40,6 +40,19 @@ CONFIGS = {
     "compact+pow2": ["std", "compact", "power-of-two"],
     "compact+radix": ["std", "compact", "radix"],
     "compact+radix+format": ["std", "compact", "radix", "format"],
+    "compact+pow2+format": ["std", "compact", "power-of-two", "format"],
+    # the rest of the 24-member lattice: the same eleven without `std` (C16 thorough)
+    "compact+nostd": ["compact"],
+    "pow2+nostd": ["power-of-two"],
+    "radix+nostd": ["radix"],
+    "format+nostd": ["format"],
+    "compact+format+nostd": ["compact", "format"],
+    "pow2+format+nostd": ["power-of-two", "format"],
+    "radix+format+nostd": ["radix", "format"],
+    "compact+pow2+nostd": ["compact", "power-of-two"],
+    "compact+radix+nostd": ["compact", "radix"],
+    "compact+pow2+format+nostd": ["compact", "power-of-two", "format"],
+    "compact+radix+format+nostd": ["compact", "radix", "format"],
 }
 
 # property -> (quick configs, extra thorough configs); "cfg:checked" selects the checked profile
@@ -58,7 +71,7 @@ PLAN = {
     "C13": (["radix+format", "format", "compact+radix+format"], ["pow2+format", "compact+format"]),
     "C14": (["default", "compact", "radix+format"], ["pow2", "radix", "compact+radix+format", "format"]),
     "C15": (["default", "format", "radix+format", "compact+radix+format"], ["compact", "radix", "pow2+format"]),
-    "C16": (["default", "nostd", "compact", "pow2", "radix", "format", "radix+format", "compact+radix+format"], ["compact+format", "pow2+format", "compact+pow2", "compact+radix"]),
+    "C16": (["default", "nostd", "compact", "pow2", "radix", "format", "radix+format", "compact+radix+format"], ["compact+format", "pow2+format", "compact+pow2", "compact+radix", "compact+pow2+format", "compact+nostd", "pow2+nostd", "radix+nostd", "format+nostd", "compact+format+nostd", "pow2+format+nostd", "radix+format+nostd", "compact+pow2+nostd", "compact+radix+nostd", "compact+pow2+format+nostd", "compact+radix+format+nostd"]),
     "C17": (["default", "radix+format", "compact+radix+format"], ["compact", "pow2", "format", "radix", "nostd"]),
     "C18": (["default", "pow2", "radix", "format", "radix+format"], ["compact+radix+format", "pow2+format", "nostd"]),
     "C19": (["default", "compact", "radix", "compact+radix+format"], ["pow2", "format", "compact+radix", "radix+format"]),
